@@ -337,7 +337,10 @@ class LoopMixin:
         if sq is not None:
             it.assume(sq == z3.Concat(done, z3.Unit(sq[i]), rest))
             it.assume(z3.Length(done) == i)
-            it.assume(z3.Contains(sq, z3.Unit(sq[i])))      # (a consequence, stated so that the membership term exists for triggers)
+            if spec.get("membership_fact"):
+                # a consequence of the decomposition, stated on request (loop spec `membership_fact=True`) so that the membership term
+                # exists for triggers; not added by default: it slows the sequence solver down considerably elsewhere
+                it.assume(z3.Contains(sq, z3.Unit(sq[i])))
         if mode is not None and mode[0] in ("items", "keys", "values"):
             it.assume(z3.Select(self.dom_of(it, mode[1]), sq[i]))      # ground instance of the enumeration axiom
         done_sv = SV("seq", done, h=hint)
